@@ -753,8 +753,10 @@ func (s *Server) runElection(id string, elecID *spb.Uint128) (*spb.ModifyRespons
 		return nil, status.Newf(codes.Internal, "cannot store election ID %s for client %s", elecID, id).Err()
 	}
 
-	s.elecMu.RLock()
-	defer s.elecMu.RUnlock()
+	// The election state is read and then updated, so the write lock is
+	// required such that concurrent elections are serialised.
+	s.elecMu.Lock()
+	defer s.elecMu.Unlock()
 	nm, _, err := isNewMaster(elecID, s.curElecID)
 	if err != nil {
 		return nil, err
